@@ -215,8 +215,8 @@ def evaluate__mod_operator(self: XPathToken, context: ta.ContextType = None) \
         return []
     elif op2 is None:
         raise self.error('XPTY0004', '2nd operand is an empty sequence')
-    elif op2 == 0 and isinstance(op2, float):
-        return math.nan
+    elif op2 == 0 and (isinstance(op1, float) or isinstance(op2, float)):
+        return math.nan  # the operands are promoted to xs:double (or xs:float)
 
     try:
         if math.isinf(op2) and not math.isinf(op1) and op1 != 0:
